@@ -37,7 +37,11 @@ class PrintUsingFormatter:
                 self.fmt_parts.append(('str', fmt[i]))
                 i += 1
             elif fmt[i] == '_':
-                non_formatting += fmt[i+1]
+                if i + 1 < len(fmt):
+                    non_formatting += fmt[i+1]
+                else:
+                    # nothing left to escape: a plain underscore
+                    non_formatting += '_'
                 i += 2
             else:
                 non_formatting += fmt[i]
